@@ -641,6 +641,18 @@ package jd
 //@   ensures_bounded ret0 == b.Equals(a, options...)
 //@   carries C04
 
+// Objects inside arrays whose keys / values are cut differently (see verifAmbiguousObjectDocs).
+//@ contract verifObjectMembers
+//@   bounded
+//@   universe a verifAmbiguousObjectDocs()
+//@   universe b verifAmbiguousObjectDocs()
+//@   universe options [][]Option{{}, {SET}, {MULTISET}, {SetKeys("a")}, {MERGE}, {SET, MERGE}}
+//@   requires validNode(a) && validNode(b)
+//@   ensures_bounded [C04] verifDomain(a, b, options) ==> a.Equals(b, options...) == specEq(a, b, verifEqualOptions(options))
+//@   ensures_bounded [C05] verifDomain(a, b, options) ==> (len(ret0) == 0) == specEq(a, b, verifEqualOptions(options))
+//@   ensures_bounded [C01] verifDomain(a, b, options) ==> verifPatchGives(a, ret0, b, options)
+//@   carries C04 C05 C01
+
 //@ contract verifSetPatchNonArray
 //@   bounded
 //@   universe n verifNodes(0)
@@ -785,6 +797,15 @@ package jd
 //@   ensures_bounded ret0 == ""
 //@   carries C01 C02 C09 C11 C16
 
+//@ contract verifScaleLists
+//@   bounded
+//@   universe a verifScaleListA()
+//@   universe b verifScaleListB()
+//@   zip a b
+//@   requires validNode(a) && validNode(b)
+//@   ensures_bounded ret0 == ""
+//@   carries C06 C07 C01
+
 //@ contract verifScaleCLI
 //@   bounded
 //@   needs_cli
@@ -818,13 +839,31 @@ package jd
 //@ contract verifCLICheck
 //@   bounded
 //@   needs_cli
-//@   cap 300 4000
+//@   cap 450 6000
 //@   universe a verifNodes(0)
 //@   universe b verifNodes(0)
-//@   universe fi []int{0, 1, 2, 3, 4, 5, 6, 7, 8}
+//@   universe fi []int{0, 1, 2, 3, 4, 5, 6, 7, 8, 9, 10, 11, 12, 13, 14}
 //@   requires validNode(a) && validNode(b) && !isVoid(a)
 //@   ensures_bounded ret0 == ""
 //@   carries C14 C05
+
+//@ contract verifCLIText
+//@   bounded
+//@   needs_cli
+//@   cap 260 3000
+//@   universe a verifTextShapeDocs()
+//@   universe b verifTextShapeDocs()
+//@   universe fi []int{0, 7, 5, 10}
+//@   requires validNode(a) && validNode(b)
+//@   ensures_bounded ret0 == ""
+//@   carries C14 C16
+
+//@ contract verifCLIPatchSpelling
+//@   bounded
+//@   needs_cli
+//@   universe i []int{0, 1, 2, 3, 4, 5, 6, 7, 8, 9}
+//@   ensures_bounded ret0 == ""
+//@   carries C14 C12 C10
 
 //@ contract verifCLITranslate
 //@   bounded
